@@ -20,6 +20,8 @@ import (
 // Harness for C38: real ConfWatcher on a temporary directory, real sleeps.
 //
 //	scn <layout> <t>:<op> <t>:<op> ...      layout: plain | sym | k8s ; t = ms after scenario start
+//	  layouts plink (directory reached through a symlinked path component) and sub (config symlink into a
+//	  sub-directory of the watched directory; op D = sub-directory deleted, staged one moved back) since round 4
 //	  ops: w overwrite in place   a append        d delete      c create again
 //	       r replace by rename    s symlink swap  k k8s ..data swap   x touch an unrelated file
 //	       q the consumer stops receiving from Watch() (what Core does before it closes its resources)
@@ -126,6 +128,22 @@ func verifC38RunOnce(layout string, steps []verifC38Step) (string, bool) {
 		os.Symlink("..d0", filepath.Join(dir, "..data"))                              //nolint:errcheck
 		os.Symlink(filepath.Join("..data", "conf.yml"), conf)                         //nolint:errcheck
 		realPath = filepath.Join(dir, "..d0", "conf.yml")
+	case "plink":
+		// the configuration directory is reached through a symlinked PATH COMPONENT
+		// (/etc/mediamtx -> /opt/mediamtx/etc): the file itself is a regular file
+		os.Mkdir(filepath.Join(dir, "realetc"), 0o755) //nolint:errcheck
+		os.Symlink("realetc", filepath.Join(dir, "link")) //nolint:errcheck
+		dir = filepath.Join(dir, "link") // watched (and written) through the link
+		conf = filepath.Join(dir, "conf.yml")
+		realPath = conf
+		os.WriteFile(conf, []byte("v0\n"), 0o644) //nolint:errcheck
+	case "sub":
+		// the configuration is a symlink into a sub-directory of the watched directory
+		// (mediamtx.yml -> releases/mediamtx.yml); deployments swap the whole sub-directory
+		os.Mkdir(filepath.Join(dir, "releases"), 0o755)                                  //nolint:errcheck
+		os.WriteFile(filepath.Join(dir, "releases", "conf.yml"), []byte("v0\n"), 0o644) //nolint:errcheck
+		os.Symlink(filepath.Join("releases", "conf.yml"), conf)                          //nolint:errcheck
+		realPath = filepath.Join(dir, "releases", "conf.yml")
 	default:
 		panic("verif: bad layout " + layout)
 	}
@@ -287,6 +305,14 @@ func verifC38RunOnce(layout string, steps []verifC38Step) (string, bool) {
 			os.Symlink(d, filepath.Join(dir, "..data_tmp"))                        //nolint:errcheck
 			os.Rename(filepath.Join(dir, "..data_tmp"), filepath.Join(dir, "..data")) //nolint:errcheck
 			realPath = filepath.Join(dir, d, "conf.yml")
+		case "D": // layout sub: the sub-directory is deleted and a staged one is moved back under the same name
+			gen++
+			staged := filepath.Join(dir, fmt.Sprintf("staged%d", gen))
+			os.Mkdir(staged, 0o755)                                         //nolint:errcheck
+			os.WriteFile(filepath.Join(staged, "conf.yml"), content, 0o644) //nolint:errcheck
+			os.RemoveAll(filepath.Join(dir, "releases"))                    //nolint:errcheck
+			time.Sleep(30 * time.Millisecond) // the watcher sees the file missing (see notes: a faster swap is racy)
+			os.Rename(staged, filepath.Join(dir, "releases")) //nolint:errcheck
 		case "x":
 			os.WriteFile(filepath.Join(dir, "unrelated.txt"), content, 0o644) //nolint:errcheck
 		case "o":
@@ -503,7 +529,7 @@ func verifC38GenOne(r *verifutil.Rand) string {
 			return fmt.Sprintf("scn %s %d:w %d:o %d:x", layout, t0, t0+50+r.Intn(900), t0+1000+r.Intn(500))
 		}
 	}
-	layout := r.Pick("plain", "plain", "sym", "k8s")
+	layout := r.Pick("plain", "plain", "sym", "k8s", "plink", "plink", "sub")
 	n := 1 + r.Intn(4)
 	t := r.Intn(3) * 20
 	exists := true
@@ -513,8 +539,10 @@ func verifC38GenOne(r *verifutil.Rand) string {
 		switch {
 		case !exists:
 			op = r.Pick("c", "c", "r", "x")
-		case layout == "plain":
-			op = r.Pick("w", "w", "w", "a", "r", "d", "x")
+		case layout == "plain" || layout == "plink":
+			op = r.Pick("w", "w", "w", "a", "r", "r", "d", "x")
+		case layout == "sub":
+			op = r.Pick("D", "D", "x") // writes inside the sub-directory produce no event in the watched one
 		case layout == "sym":
 			op = r.Pick("w", "s", "s", "a", "d", "r", "x")
 		default:
